@@ -22,7 +22,7 @@ def knownCatBodies : List (String × List String) := [
   ("CatLinearOperator._check_args", ["if len(linear_ops) == 0", "if not all([isinstance(t, LinearOperator) for t in linear_ops])", "del rep_tensor_noncat_shape[dim]", "if len(linear_ops) == 1", "if t.dim() != rep_tensor.dim()", "del t_noncat_shape[dim]", "if t_noncat_shape != rep_tensor_noncat_shape", "raises=5"]),
   ("CatLinearOperator.__init__", ["self._shape = torch.Size((*rep_tensor.shape[:positive_dim], cat_dim_cum_sizes[-1].item(), *rep_tensor.shape[positive_dim + 1:]))", "no _check_args call"]),
   ("LinearOperator.__init__", ["if settings.debug.on()", "calls _check_args"]),
-  ("LinearOperator.cat_rows", ["if self.ndimension() < cross_mat.ndimension()", "call torch.broadcast_shapes(self.shape[:-2], B.shape[:-2])", "call self.expand(expand_shape)", "new CatLinearOperator(A, B, dim=-2, output_device=A.device)", "new CatLinearOperator(B.mT, D, dim=-2, output_device=A.device)", "new CatLinearOperator(upper_row, lower_row, dim=-1, output_device=A.device)"]),
+  ("LinearOperator.cat_rows", ["if not self.is_square", "if self.ndimension() < cross_mat.ndimension()", "call torch.broadcast_shapes(self.shape[:-2], B.shape[:-2])", "call self.expand(expand_shape)", "new CatLinearOperator(A, B, dim=-2, output_device=A.device)", "new CatLinearOperator(B.mT, D, dim=-2, output_device=A.device)", "new CatLinearOperator(upper_row, lower_row, dim=-1, output_device=A.device)"]),
   ("LinearOperator.add_low_rank", ["new_linear_op = self + to_linear_operator(low_rank_mat.matmul(low_rank_mat.mT))", "new_linear_op = SumLinearOperator(*self.linear_ops, to_linear_operator(low_rank_mat.matmul(low_rank_mat.mT)))"]),
   ("RootLinearOperator.add_low_rank", [])]
 
